@@ -158,7 +158,36 @@ def precedence():
 
 
 precedence()
-print(json.dumps({"bound": "9 variable sets (1..3 variables; values, linear/log ranges with/without endpoint, from_context) x {combinatorial, by_position, by_position+broadcast} x {source, operation, probe} x 2 expressions; 1 precedence case",
+
+
+def falsy_node_parameter():
+    """a non-swept node parameter that is falsy (0.0, 0, False) still wins over the processor's default"""
+    global evaluations
+    from semantiva.examples.test_utils import FloatOperation, FloatDataType
+
+    class AffineC03(FloatOperation):
+        """gain * x + offset with a defaulted offset"""
+
+        def _process_logic(self, data, gain: float, offset: float = 100.0):
+            return FloatDataType(gain * data.data + offset)
+
+    for label, offset in (("0.0", 0.0), ("0", 0), ("False", False)):
+        evaluations += 1
+        distinct.add(("falsy-node-parameter", label))
+        sweep = {"parameters": {"gain": "g"}, "variables": {"g": {"values": [1.0, 2.0, 4.0]}}, "collection": "FloatDataCollection"}
+        nodes = [{"processor": "FloatValueDataSource", "parameters": {"value": 3.0}},
+                 {"processor": AffineC03, "parameters": {"offset": offset}, "derive": {"parameter_sweep": sweep}}]
+        try:
+            out = Pipeline(nodes).process(Payload(NoDataType(), ContextType({})))
+            got = [x.data for x in out.data]
+            if not close([float(x) for x in got], [3.0, 6.0, 12.0]):
+                failures.append({"class": "precedence:falsy-node-parameter-loses-to-the-default", "offset": label, "got": got, "want": [3.0, 6.0, 12.0]})
+        except Exception as e:       # noqa
+            failures.append({"class": "precedence:falsy-node-parameter-case-raised", "offset": label, "exc": repr(e)[:200]})
+
+
+falsy_node_parameter()
+print(json.dumps({"bound": "9 variable sets (1..3 variables; values, linear/log ranges with/without endpoint, from_context) x {combinatorial, by_position, by_position+broadcast} x {source, operation, probe} x 2 expressions; 1 precedence case + 3 falsy node-parameter cases",
                   "evaluations": evaluations, "distinct_nontrivial": len(distinct),
                   "rule": "distinct = (variable set, mode, broadcast, wrapped kind, expression); oracle = itertools.product over sorted names / aligned or cycled positions, written independently of the factory",
                   "failures": failures[:200], "samples": samples}, default=str))
